@@ -8,13 +8,15 @@ Local Open Scope N_scope.
 
 Lemma tbl_send_literals :
   send_literals =
-  [ str "<open xmlns=""urn:ietf:params:xml:ns:xmpp-framing"" version='%s'";
+  [ str "open"; str "stream";
+    str "<open xmlns=""urn:ietf:params:xml:ns:xmpp-framing"" version='%s'";
     str "<stream:stream xmlns='%s' xmlns:stream='http://etherx.jabber.org/streams' version='%s'";
     str "id"; str "to"; str "from"; str "xml:lang";
     str "/>"; str ">" ] /\
   write_attr_literals = [ str " %s='" ] /\
   send_attr_calls = [ (str "id", str "id"); (str "to", str "to"); (str "from", str "from"); (str "xml:lang", str "lang") ] /\
-  send_escaped_params = [ str "value" ].
+  send_escaped_params = [ str "value" ] /\
+  send_recorded_names = [ (str "wsNamespace", str "open"); (str "stream.NS", str "stream") ].
 Proof. vm_compute. repeat split; reflexivity. Qed.
 
 Lemma tbl_namespaces :
@@ -1117,7 +1119,7 @@ Qed.
 Lemma bind_roundtrip_error reqid res ens a ks local :
   exists n,
     bind_server parse false (IElem (bind_request reqid res)) (VStanzaErr [NElem ens (str "error") a ks])
-      = (BReady, Some res, flatten n) /\
+      = (BStanzaErr, Some res, flatten n) /\
     bind_client parse reqid (IElem n) local = (BStanzaErr, local).
 Proof.
   exists (NElem ns_client (str "iq") (iq_attrs iq_error jid_zero jid_zero reqid) [NElem ens (str "error") a ks]).
@@ -1149,7 +1151,7 @@ Lemma bind_server_reply s2s attrs kids v q :
        flatten (NElem (content_ns s2s) (str "iq") (iq_attrs iq_result (b_from q) (b_to q) (attr_first (str "id") attrs))
                       [NElem ns_bind (str "bind") [] (payload_nodes [] j)]))
   | VStanzaErr en =>
-      (BReady, Some (b_resource q),
+      (BStanzaErr, Some (b_resource q),
        flatten (NElem (content_ns s2s) (str "iq") (iq_attrs iq_error (b_from q) (b_to q) (attr_first (str "id") attrs)) en))
   end.
 Proof.
@@ -1302,4 +1304,67 @@ Proof.
   - intro H. destruct (jid_string jfrom); [contradiction | reflexivity].
   - intro H. destruct id; [contradiction | reflexivity].
   - intro H. destruct lang; [contradiction | reflexivity].
+Qed.
+
+(* the element Send records in the output stream info is the element a peer
+   reads from the printed header *)
+Definition tok_name (t : tok) : bytes * bytes :=
+  match t with TStart ns l _ => (ns, l) | _ => ([], []) end.
+
+Lemma send_name_is_printed :
+  (forall xmlns ver lang to from id, tok_name (tcp_token xmlns ver lang to from id) = send_name false) /\
+  (forall ver lang to from id, tok_name (ws_token ver lang to from id) = send_name true).
+Proof. split; reflexivity. Qed.
+
+(* Several default binds with one feature value: the k-th negotiation assigns
+   the k-th random draw as resource on its peer's bare address; distinct draws
+   give pairwise distinct resources. *)
+Definition neg_ok (parse : bytes -> option jid) (s2s : bool) (n : jid * item * bytes) : Prop :=
+  j_domain (fst (fst n)) <> [] /\
+  exists attrs kids q, snd (fst n) = IElem (NElem (content_ns s2s) (str "iq") attrs kids) /\
+                       decode_bind_iq parse attrs kids = Some q.
+
+Definition assigned (n : jid * item * bytes) : jid :=
+  mkjid (j_local (fst (fst n))) (j_domain (fst (fst n))) (snd n).
+
+Definition default_reply (parse : bytes -> option jid) (s2s : bool) (n : jid * item * bytes) : bres * list tok :=
+  let '(res, _, reply) := bind_server parse s2s (snd (fst n)) (VJid (assigned n)) in (res, reply).
+
+Lemma bind_default_many_fresh parse s2s : forall negs,
+  Forall (neg_ok parse s2s) negs ->
+  bind_default_many parse s2s negs = map (default_reply parse s2s) negs /\
+  Forall (fun r => fst r = BReady) (bind_default_many parse s2s negs) /\
+  map j_res (map assigned negs) = map snd negs.
+Proof.
+  induction negs as [|[[remote request] rid] r IH]; intro F; [repeat split; constructor|].
+  inversion F as [|x l [D (attrs & kids & q & Rq & Dq)] Fr]; subst.
+  destruct (IH Fr) as (E & R & M). cbn [fst snd] in D, Rq.
+  assert (V : default_verdict remote rid = VJid (assigned (remote, request, rid))).
+  { unfold default_verdict, assigned. cbn [fst snd]. destruct (j_domain remote); [contradiction | reflexivity]. }
+  cbn [bind_default_many map]. unfold default_reply at 1. cbn [fst snd]. rewrite V.
+  pose proof (bind_server_reply parse s2s attrs kids (VJid (assigned (remote, request, rid))) q Dq) as B.
+  rewrite <- Rq in B. rewrite B.
+  repeat split.
+  - f_equal. exact E.
+  - constructor; [reflexivity | exact R].
+  - cbn [map assigned j_res snd]. f_equal. exact M.
+Qed.
+
+Lemma bind_default_many_nodup parse s2s negs :
+  Forall (neg_ok parse s2s) negs ->
+  NoDup (map snd negs) ->
+  NoDup (map j_res (map assigned negs)).
+Proof.
+  intros F N. destruct (bind_default_many_fresh parse s2s negs F) as (_ & _ & M). rewrite M. exact N.
+Qed.
+
+Lemma bind_fresh_per_negotiation parse s2s negs :
+  Forall (neg_ok parse s2s) negs ->
+  bind_default_many parse s2s negs = map (default_reply parse s2s) negs /\
+  Forall (fun r => fst r = BReady) (bind_default_many parse s2s negs) /\
+  map j_res (map assigned negs) = map snd negs /\
+  (NoDup (map snd negs) -> NoDup (map j_res (map assigned negs))).
+Proof.
+  intro F. destruct (bind_default_many_fresh parse s2s negs F) as (A & B & C).
+  repeat split; try assumption. exact (bind_default_many_nodup parse s2s negs F).
 Qed.
